@@ -146,6 +146,15 @@ CLAIMED["C20"] = dict(
     technique="bounded-exhaustive program enumeration, differential oracle between direct and monadically elaborated execution on the real pipeline",
 )
 
+CLAIMED["C17"] = dict(
+    category="model_checking",
+    text="Deviation-bounded exhaustive schedule exploration of the real CompilerSession under shuttle's execution engine with a custom scheduler: salsa compiled in its shuttle mode (every lock, condvar and atomic inside salsa is a scheduling point), the session's DashMap shard locks replaced by a scheduler-aware lock, the key-space counter made visible through the zydeco_verif hook. Nine closed harnesses (snapshot readers vs owner edits on the same and on different roots, edit + revert, first load racing an overlay, independent IdAllocators racing an analysis, externally resolved programs through check_resolved), each explored for ALL schedules with at most 1 preemption (2 for the two-thread harnesses) in the quick tier — 0.2M executions, each in a forked child of one warmed-up parent, each replayed deviation checked for divergence — against a sequential fresh-session oracle per snapshot; thorough: one more preemption, capped (cap and pending count reported). Says nothing above the preemption bound, about weak memory, or about the language server's tokio layer.",
+    design_ref="C17",
+    note="Trusts shuttle's engine (one vendored line changed so that locks released while unwinding with salsa::Cancelled still wake their waiters), the vendored dashmap lock shim and the poisoning-tolerant salsa shim; code between two scheduling points runs atomically.",
+    technique="stateless model checking of the implementation: exhaustive enumeration of thread schedules up to a preemption bound under a controlled scheduler",
+    engine="zys",
+)
+
 NOT_YET = {}
 
 def main():
@@ -174,12 +183,14 @@ def main():
         "setup_cmd": "scripts/setup.sh",
         "hooks": {
             "guard": "--cfg zydeco_verif",
-            "enable": "none needed: all checks drive public API of the crates under /repo via path dependencies; no source hooks exist",
+            "enable": "only C17 builds /repo with the guard on: /verif/sched/.cargo/config.toml sets rustflags --cfg zydeco_verif and ZYDECO_VERIF_SYNC=sched/shim/verif_sync.rs (the atomic wrapper included by lang/utils/src/arena.rs under the guard); every other check builds /repo with the guard off",
             "baseline_off_cmd": "cd /repo && cargo nextest run --workspace --no-fail-fast --tool-config-file pb:/w/lib/nextest.toml --profile pb --test-threads 8 --offline",
-            "source_commits": [],
+            "source_commits": ["0e2af57", "762c9b7"],
             "add_only": True,
         },
         "engines": [
+            {"name": "zys", "path": "sched", "serves_properties": ["C17"],
+             "kind_free_text": "separate cargo workspace: custom shuttle Scheduler (deviation-bounded DFS over schedules, fork per execution), salsa with its shuttle feature, vendored shims for dashmap / salsa sync / shuttle-engine"},
             {"name": "zyv", "path": "engine", "serves_properties": [c["property_id"] for c in checks if c["engine"] == "zyv"],
              "kind_free_text": "Rust harness crate path-depending on /repo's crates; bounded-exhaustive case enumeration, each case executed on the real implementation in crash/timeout-isolated worker processes and compared against harness reference models"},
         ],
